@@ -319,10 +319,11 @@ cdef class LinkedListNNPS(NNPS):
         self.ncells_per_dim.data[1] = ncy
         self.ncells_per_dim.data[2] = ncz
 
-        # total number of cells
-        _ncells = ncx
-        if dim == 2: _ncells = ncx * ncy
-        if dim == 3: _ncells = ncx * ncy * ncz
+        # total number of cells.  The flattened index always uses all three
+        # directions (a 1D/2D problem can still have more than one cell in
+        # the unused directions, e.g. when the bounds are padded), so count
+        # them all.
+        _ncells = ncx * ncy * ncz
         return _ncells
 
     @cython.boundscheck(False)
